@@ -186,7 +186,7 @@ def mutate(rng, prefix, lines):
 
 class P(Property):
     id = 'C11'
-    gen_modules = ['gen_codes', 'gen_static', 'gen_qstateless', 'gen_limits', 'gen_prefixint', 'gen_huffman', 'gen_huffman_enc', 'gen_prefixstring', 'gen_bitwin']
+    gen_modules = ['gen_codes', 'gen_static', 'gen_qstateless', 'gen_limits', 'gen_prefixint', 'gen_huffman', 'gen_huffman_enc', 'gen_prefixstring', 'gen_bitwin', 'gen_huffiter']
     extra_bins = ['c10']          # the scripted-peer harness over SimQuic: bad sections at the three receive sites
     properties_v = 'Properties/C11.v'
     model_targets = ['Model/QpackStateless.vo', 'Spec/RFC9204Static.vo', 'Spec/FieldSize.vo']
